@@ -550,7 +550,7 @@ func c06idem(c *Ctx, apply *ssa.Function, reach map[*ssa.Function]*ssa.Function)
 	// mailbox creation guarded by existence
 	if mc := c.fn("R06.4", "internal/backend.(*user).applyMailboxCreated"); mc != nil {
 		var exists, creates []ssa.Instruction
-		for _, f := range engine.WithClosures(mc) {
+		for _, f := range c.withPackageHelpers(mc, "internal/backend", 1) {
 			for _, cs := range engine.Calls(f) {
 				if isInvokeNamed(cs, "MailboxExistsWithRemoteID") {
 					exists = append(exists, cs.Instr)
